@@ -36,6 +36,7 @@ def run(ck):
     ck.validate_traces('RegsTrace', 'Trace_Regs.cfg', files, timeout=1800)
     ck.sample_lines(files[0], 1, skip=2)
     isa_common.family_check(ck, FAMILY, ck.pick(4, 12), 'c20', parts=8, rounds=1)
+    isa_common.sweep_all(ck, 'c20', seedoff=2000)
     ck.assumptions += isa_common.ISA_ASSUMPTIONS + [
         'the slot tables of TeakRegs.tla are a hand transcription of register.h, frozen in /verif']
 
